@@ -7,7 +7,9 @@ from . import common as C
 
 POOL = [('v', i) for i in range(5)]
 CONSTS = [('a', 'a'), ('a', 'b'), ('a', 'c'), ('i', 0), ('i', 1), ('s', 'a'), ('s', ''), ('a', '[]'), ('a', '1'),
-          ('k', 'None'), ('k', '2.5'), ('k', "b'x'"), ('k', "('t', 1)"), ('i', -3)]
+          ('k', 'None'), ('k', '2.5'), ('k', "b'x'"), ('k', "('t', 1)"), ('i', -3),
+          # integers beyond 2**53 (64-bit identifiers, nanosecond time stamps): neighbours that a float cannot tell apart
+          ('i', 9007199254740993), ('i', 9007199254740992), ('i', 2 ** 64 + 1), ('i', 2 ** 64)]
 
 
 def gterm(src, depth=0, nv=5):
@@ -17,7 +19,7 @@ def gterm(src, depth=0, nv=5):
     if k < 7 or depth >= 3:
         return src.pick(CONSTS)
     if k < 9:
-        name, n = src.pick([('f', 1), ('g', 2), ('f', 2), ('h', 3), ('g', 1)])
+        name, n = src.pick([('f', 1), ('g', 2), ('f', 2), ('h', 3), ('g', 1), ('f', 0)])     # f() is a compound without arguments
         return ('f', name, tuple(gterm(src, depth + 1, nv) for _ in range(n)))
     items = [gterm(src, depth + 1, nv) for _ in range(src.n(4))]
     if items and src.n(3) == 2:
@@ -35,8 +37,8 @@ def mutate(src, t, nv, depth=0):
     if t[0] == 'f':
         if k == 2:
             return ('f', src.pick(['f', 'g', 'h']), t[2])                  # same arguments, maybe other name
-        if k == 3 and len(t[2]) > 1:
-            return ('f', t[1], t[2][:-1])                                  # same name, other arity
+        if k == 3 and len(t[2]) >= 1:
+            return ('f', t[1], t[2][:-1])                                  # same name, other arity (down to none: f())
         return ('f', t[1], tuple(mutate(src, a, nv, depth + 1) if src.n(3) else a for a in t[2]))
     if k == 4:
         return src.pick(CONSTS)
